@@ -386,11 +386,35 @@ func splitWord(s string) (string, string) {
 
 func parseList(s string) []string {
 	var out []string
-	for _, p := range strings.Split(s, ",") {
-		p = strings.TrimSpace(p)
+	depth := 0
+	start := 0
+	flush := func(end int) {
+		p := strings.TrimSpace(s[start:end])
 		if p != "" && p != "nothing" {
 			out = append(out, p)
 		}
 	}
+	for i := 0; i < len(s); i++ {
+		switch s[i] {
+		case '[', '(':
+			depth++
+		case ']', ')':
+			depth--
+		case ',':
+			if depth == 0 {
+				flush(i)
+				start = i + 1
+			}
+		}
+	}
+	flush(len(s))
 	return out
+}
+
+// splitMod splits a modifies entry "comp@expr" into component and target expression.
+func splitMod(m string) (comp, at string) {
+	if k := strings.Index(m, "@"); k >= 0 {
+		return strings.TrimSpace(m[:k]), strings.TrimSpace(m[k+1:])
+	}
+	return m, ""
 }
